@@ -381,7 +381,7 @@ def violation_key(v):
     return (v.get("class"), v.get("opkind"))
 
 
-def minimise(workload, trace, key, budget_s=240.0):
+def minimise(workload, trace, key, budget_s=240.0, hint_step=None):
     """Shrink `trace` while workload.check_trace still reports a violation
     with the same key.  Every candidate is executed in fresh forks."""
     t_end = _real_monotonic() + budget_s
@@ -400,6 +400,15 @@ def minimise(workload, trace, key, budget_s=240.0):
         return None
 
     cur = workload.prune(trace)
+    # 0. nothing after the violating step is needed (runs are deterministic):
+    #    one test cuts a long history down to its prefix
+    if isinstance(hint_step, int) and 0 <= hint_step < len(
+            trace["steps"]) - 1:
+        cand = dict(trace)
+        cand["steps"] = trace["steps"][:hint_step + 1]
+        got = fails(cand)
+        if got is not None:
+            cur = got
     # 1. ddmin on steps
     n = 2
     while len(cur["steps"]) >= 2 and _real_monotonic() < t_end:
